@@ -163,7 +163,7 @@ Definition alert_branch (l d : Z) (s : st) : st * exn :=
 (* _sendMsg of a handshake-type record OUTSIDE any handshake (KeyUpdate, post-handshake
    CertificateRequest): _sendMsgThroughSocket's look-for-alert branch with no
    _handshakeWrapperAsync around it.  When reading the next record itself fails (EOF, errno)
-   that exception leaves and nothing has shut the connection down. *)
+   that exception leaves this function with nothing shut down; the caller (post_send_w) does it. *)
 Definition post_send_hs (s : st) : st * r unit :=
   let '(s1, e) := send_rec (WHs 22) s in
   match e with
@@ -180,6 +180,16 @@ Definition post_send_hs (s : st) : st * r unit :=
       | (s2, Blk) => (s2, Blk)
       | (s2, Fuel) => (s2, Fuel)
       end
+  end.
+
+(* TLSRecordLayer._send_post_handshake_msg (since /repo fa8f243): the send of a public
+   post-handshake call; any exception => _shutdown(False), then re-raised.  (Before that fix
+   post_send_hs was used bare: an exception of the look-for-alert read left the connection open.) *)
+Definition post_send_w (s : st) : st * r unit :=
+  match post_send_hs s with
+  | (s1, Exc x) => let '(s2, e) := shutdown false s1 in
+                   (s2, Exc (match e with Some z => XSock z | None => x end))
+  | p => p
   end.
 
 Inductive rctx := CRead | CWait | CHs.
@@ -239,7 +249,7 @@ Definition get_msg (c : rctx) (s : st) : st * r item := get_msg_q c (inq s) s.
 Definition read_msg (s : st) : st * r item :=
   match get_msg CRead s with
   | (s1, Val (ICtl KuReq)) =>
-      match post_send_hs s1 with
+      match post_send_w s1 with
       | (s2, Val _) => (s2, Val (ICtl KuNoReq))
       | (s2, Exc x) => (s2, Exc x)
       | (s2, Blk) => (s2, Blk)
@@ -336,21 +346,21 @@ Definition post_outcome (p : st * r unit) : st * outcome :=
 Definition do_keyupdate (s : st) : st * outcome :=
   if closed s then (s, OExc XClosed)
   else if negb (tls13 s) then (s, OExc XValue)
-  else post_outcome (post_send_hs s).
+  else post_outcome (post_send_w s).
 
 (* ok: server side, the client announced post_handshake_auth.  On a closed connection the
    version test comes first (version is (0,0) after _shutdown): ValueError *)
 Definition do_pha (ok : bool) (s : st) : st * outcome :=
   if closed s || negb ok || negb (tls13 s) then (s, OExc XValue)
-  else post_outcome (post_send_hs s).
+  else post_outcome (post_send_w s).
 
 (* ok: heartbeat negotiated and this side may send requests.  A heartbeat record is not a
-   handshake record: a socket error is raised as it is and nothing shuts the connection down *)
+   handshake record: no look-for-alert; the socket error goes through _send_post_handshake_msg *)
 Definition do_heartbeat (ok : bool) (s : st) : st * outcome :=
   if closed s then (s, OExc XClosed)
   else if negb ok then (s, OExc XValue)
   else let '(s1, e) := send_rec (WHs 24) s in
-       match e with Some z => (s1, OExc (XSock z)) | None => (s1, ODone) end.
+       match e with Some z => raise_after_shutdown false (XSock z) s1 | None => (s1, ODone) end.
 
 (* ---- closeAsync / _decrefAsync -------------------------------------------------------- *)
 Fixpoint close_wait (fuel : nat) (s : st) : st * r (Z * Z) :=
